@@ -84,6 +84,8 @@ type Sim struct {
 	chans   []chanInfo
 	chanTab []int32 // open-addressing index into chans (ordinal, 0 = empty)
 
+	closedRecvs []uint64 // (task, channel) pairs whose closed receive is already in the history
+
 	sites    [siteSlots]*SiteStat
 	siteList []*SiteStat
 
@@ -240,7 +242,7 @@ func Run(cfg Config, ch *Choices, main func()) *Result {
 	s := &Sim{
 		cfg:          cfg,
 		ch:           ch,
-		events:       make(chan event, 1<<14),
+		events:       make(chan event, 1<<10),
 		start:        time.Now(),
 		hash:         1469598103934665603,
 		sig:          1469598103934665603,
@@ -373,9 +375,13 @@ func Run(cfg Config, ch *Choices, main func()) *Result {
 		})
 	}
 
-	// The sim stays reachable through abandoned tasks; mark it dead so that a task
-	// woken later (it cannot be: the bubble is over) would park at once.
+	// The sim stays reachable through abandoned tasks (their goroutines are parked for
+	// ever): mark it dead, and drop everything big it holds so that an abandoned run costs
+	// a few goroutine stacks, not its whole history.
 	s.aborted = true
+	s.hist, s.logText, s.chans, s.chanTab, s.closedRecvs, s.siteList = nil, nil, nil, nil, nil, nil
+	s.events = nil // (an abandoned task that were ever woken would block on it: fine)
+	s.sites = [siteSlots]*SiteStat{}
 
 	return res
 }
